@@ -33,7 +33,17 @@ def get_name(node: ast.AST) -> str:
 
 
 def _get_assign_names(node: ast.Assign) -> list[str]:
-    names = (get_name(target) for target in node.targets)
+    names = []
+    unsupported = 0
+    for target in node.targets:
+        # A target that is not a name (subscript, tuple...) binds no attribute:
+        # the other targets of a chained assignment still do.
+        try:
+            names.append(get_name(target))
+        except KeyError:
+            unsupported += 1
+    if unsupported == len(node.targets):
+        raise KeyError(type(node.targets[0]))
     return [name for name in names if name]
 
 
